@@ -99,8 +99,11 @@ func c12Pay(c *fw.Ctx, i int) {
 		if extra < 0 {
 			extra = 0
 		}
-		if mtu >= 1000 && r.Chance(1, 40) {
-			extra = r.Pick(65535, 65536, 65537, 70000, 131073) // frames beyond 64 KiB
+		if (mtu >= 1000 && r.Chance(1, 40)) || (mtu >= 64 && r.Chance(1, 300)) || r.Chance(1, 8000) {
+			extra = r.Pick(65535, 65536, 65537, 70000, 131073) // frames beyond 64 KiB (more than 65535 packets at tiny MTUs)
+		}
+		if !flex && mtu == minMTU && r.Chance(1, 400) {
+			extra = 9*65536 + r.Range(0, 40) // non-flexible mode at MTU 12 carries 9 bytes per packet: more than 65536 packets
 		}
 		frame := append(append([]byte{}, hb...), r.Bytes(extra)...)
 		if flex && r.Bool() {
